@@ -71,9 +71,92 @@ def l2_tree_invariances(run, rng, quick):
     return done
 
 
+def l2_tree_gauge_contract(run, rng, quick):
+    """hypotheses of `amp_bond_gauge` checked on every REAL gauge move of the tree code (push_cano_to_parent / _to_child
+    during canonicalise and random walks of the centre): only the two tensors at the ends of ONE bond change, their
+    contraction over that bond is unchanged (G·G⁻¹ = 1), and the tensor left behind is an isometry towards the new centre."""
+    import lib_tree as lt
+    from renormalizer.tn.tree import TTNS
+    rec = dict(n=0, bad=[])
+    o_par, o_chd = TTNS.push_cano_to_parent, TTNS.push_cano_to_child
+
+    def pair(child):
+        a, b = np.asarray(child.tensor), np.asarray(child.parent.tensor)
+        return np.tensordot(a, b, axes=([a.ndim - 1], [child.idx_as_child]))
+
+    def judged(self, child, left_behind, towards_parent, call):
+        others = {id(n): np.array(n.tensor, copy=True) for n in self.node_list if n is not child and n is not child.parent}
+        before = pair(child)
+        call()
+        after = pair(child)
+        rec["n"] += 1
+        scale = max(1.0, float(np.max(np.abs(before))) if before.size else 1.0)
+        tol = 256 * np.finfo(float).eps * max(before.size, 16) * scale
+        if before.shape != after.shape or (before.size and np.max(np.abs(before - after)) > tol):
+            rec["bad"].append(("two-node-tensor-changed", float(np.max(np.abs(before - after))) if before.shape == after.shape else -1.0))
+        for n in self.node_list:
+            if id(n) in others and (others[id(n)].shape != np.asarray(n.tensor).shape or not np.array_equal(others[id(n)], np.asarray(n.tensor))):
+                rec["bad"].append(("bystander-node-changed", 0.0))
+        t = np.asarray(left_behind.tensor)
+        if towards_parent:
+            m = t.reshape(-1, t.shape[-1])
+        else:
+            ax = child.idx_as_child
+            m = np.moveaxis(t, ax, -1).reshape(-1, t.shape[ax])
+        g = m.conj().T @ m
+        if g.size and np.max(np.abs(g - np.eye(g.shape[0]))) > 1e-9:
+            rec["bad"].append(("node-left-behind-not-isometric", float(np.max(np.abs(g - np.eye(g.shape[0]))))))
+
+    def w_par(self, node):
+        return judged(self, node, node, True, lambda: o_par(self, node))
+
+    def w_chd(self, node, ichild):
+        return judged(self, node.children[ichild], node, False, lambda: o_chd(self, node, ichild))
+    TTNS.push_cano_to_parent, TTNS.push_cano_to_child = w_par, w_chd
+    done = 0
+    try:
+        for _ in range(10 if quick else 100):
+            qn_mode = str(rng.choice(["none", "u1", "u1", "u1x2"]))
+            try:
+                descs = lt.random_basis_descs(rng, int(rng.integers(2, 7)), qn_mode=qn_mode)
+            except Exception:  # noqa
+                descs = lt.random_basis_descs(rng, int(rng.integers(2, 7)), qn_mode="none")
+            descs2, spec = lt.random_tree_spec(rng, descs)
+            basis_list = lt.make_basis_list(descs2)
+            tree, nodes = lt.build_basis_tree(spec, basis_list)
+            st = lt.random_ttns_tensors(rng, spec, descs2, max_bond=4, cplx=bool(rng.random() < 0.5))
+            if st is None:
+                continue
+            ttns = lt.build_ttns(tree, spec, st["tensors"], st["qns"])
+            nb = len(rec["bad"])
+            try:
+                ttns.canonicalise()
+                # random walk of the centre: down to a random node and back up
+                node = ttns.root
+                path = []
+                while node.children and rng.random() < 0.8:
+                    i = int(rng.integers(len(node.children)))
+                    ttns.push_cano_to_child(node, i)
+                    node = node.children[i]
+                    path.append(node)
+                for nd in reversed(path):
+                    ttns.push_cano_to_parent(nd)
+            except Exception as e:  # noqa
+                run.count("gauge-walk-raised:" + type(e).__name__)
+            done += 1
+            run.count(f"gauge-walk:qn={qn_mode}:nodes={len(spec['groups'])}")
+            for b in rec["bad"][nb:]:
+                run.violation(f"contract:tree-gauge:{b[0]}", dict(contract=b[0], deviation=b[1], spec=spec,
+                                                                   what="hypothesis of RenoVerif.TN.amp_bond_gauge violated by a real gauge move of the tree code"))
+    finally:
+        TTNS.push_cano_to_parent, TTNS.push_cano_to_child = o_par, o_chd
+    run.cov["tree_gauge_moves_checked"] = rec["n"]
+    return done
+
+
 if __name__ == "__main__":
     common.main_wrapper(lambda: generic_check.run_check(
-        "C11", "other", ["RenoVerif/Props/C11.lean"], [l2_tree_invariances],
+        "C11", "other", ["RenoVerif/Props/C11.lean"], [l2_tree_invariances, l2_tree_gauge_contract],
         ["add, apply, canonicalise/compress, expectation, reduced density matrices and entropies of tree states are decided by the dense oracle only",
          "the tn package imports only with the print_tree shim"],
         "random trees (2-5 basis sets + dummies, all shapes) x random QN-free tensors; state-sum vs TTNS dense walk, scale, child permutation",
